@@ -258,7 +258,7 @@ _calls = {"n": 0}
 _shared_lists = {}       # one list object per sequence of field names, handed to every program of the process that lists them
 
 
-def run_direct(cls_name, inputs, params, fuzzy_inputs=False, libs=CSV_LIBS):
+def run_direct(cls_name, inputs, params, fuzzy_inputs=False, libs=CSV_LIBS, seq=None):
     """The way the repository's own tests drive a command: an argument-less instance and execute(**kwargs) with stand-in
     producers and the caller's own parameter objects (nothing is cleaned or copied on the way)."""
     program = new_program(libs)
@@ -271,7 +271,8 @@ def run_direct(cls_name, inputs, params, fuzzy_inputs=False, libs=CSV_LIBS):
     elif shape == "ab":
         kwargs["A"], kwargs["B"] = prods[0], prods[1]
     else:
-        kwargs["InFieldNames"] = prods
+        # seq: the fields as a tuple, an iterator or a generator (any iterable a caller may have at hand)
+        kwargs["InFieldNames"] = prods if seq is None else tuple(prods) if seq == "tuple" else iter(prods) if seq == "iter" else (p_ for p_ in prods)
     try:
         return Outcome(value=cls("Res").execute(**kwargs)), program
     except Exception as e:
